@@ -35,7 +35,7 @@ def strategy(tier):
         P = draw(trees.piece_length(tier))
         route = draw(st.sampled_from(["lib", "lib", "cli"]))
         t = draw(trees.tree(P, max_files=8 if tier == "quick" else 20, cli_safe=(route == "cli")))
-        return {"tree": t, "P": P, "route": route}
+        return {"tree": t, "P": None if draw(st.sampled_from([True] + [False] * 9)) else P, "route": route}
     return case()
 
 
@@ -54,6 +54,13 @@ def grid(tier):
                     cases.append({"tree": {"name": "g", "single": False, "files": [
                         {"path": ["a"], "size": a, "mode": "rnd", "seed": a},
                         {"path": ["b"], "size": b, "mode": "rnd", "seed": b + 1}]}, "P": P, "route": "lib"})
+    # automatic piece length (P = None) where the padded stream has more pieces than the payload suggests
+    for n in (999, 1001, 1003):
+        cases.append({"tree": {"name": "many", "single": False, "files": [
+            {"path": ["f%04d" % i], "size": 1 + (i % 3), "mode": "const", "seed": i} for i in range(n)]}, "P": None, "route": "lib"})
+    for sizes in ([16383000, 500, 700], [8191000, 8191000, 900, 3]):
+        cases.append({"tree": {"name": "thresh", "single": False, "files": [
+            {"path": ["g%d" % i], "size": sz, "mode": "const", "seed": 40 + i} for i, sz in enumerate(sizes)]}, "P": None, "route": "lib"})
     return cases
 
 
@@ -75,6 +82,12 @@ def judge(m, tree, P):
     info = m.info
     spec = common.by_path(tree)
     classes = set()
+    if P is None:
+        # automatic choice: everything is judged against the piece length the metafile records
+        P = info.get(b"piece length")
+        classes.add("auto-piece-length")
+        if not isinstance(P, int) or P < 16384 or P & (P - 1):
+            return Outcome(Violation("C15:auto-piece-length", "recorded piece length %r" % (P,)), True)
     if info.get(b"piece length") != P:
         return Outcome(Violation("C15:piece-length", "recorded %r requested %d" % (info.get(b"piece length"), P)), True)
     pieces = info.get(b"pieces")
